@@ -93,6 +93,7 @@ fn scen_c03(_spec: RunSpec) -> ScenFut {
                     c.fail_before_pm = 15;
                     c.fail_after_pm = 15;
                     c.delay_pm = 15;
+                    c.body_break_pm = 10;
                     c.fault_budget = b2;
                 }
                 2 => {
